@@ -1,0 +1,183 @@
+//go:build verif
+
+package art
+
+import "unsafe"
+
+// Verification hooks (build tag "verif"): a read-only structural walker.
+// Nothing here is compiled without the tag and nothing here is called by the
+// library itself.
+
+// VerifMaxPrefixLen is the inline compressed-path limit.
+const VerifMaxPrefixLen = maxPrefixLen
+
+// VerifSlot is one raw child slot of an inner node.
+type VerifSlot struct {
+	Index  int        // position in the node's child array
+	Byte   int        // branch byte registered for the slot, -1 if none refers to it
+	NonNil bool       // the slot's pointer is not nil
+	Tag    int        // raw tag of the slot
+	Live   bool       // the slot is one the library's own lookup/iteration would use
+	Child  *VerifNode // only for live slots
+}
+
+// VerifNode is a raw, address-free picture of one node.
+type VerifNode struct {
+	Leaf bool
+
+	// inner nodes
+	Class       int    // 4, 16, 48, 256
+	ChildrenLen int    // recorded fan-out counter
+	PrefixLen   int    // recorded compressed-path length
+	Prefix      []byte // all inline bytes, whatever PrefixLen says
+	RawKeys     []byte // the whole key array (4, 16, 256 bytes; nil for class 256)
+	Slots       []VerifSlot
+
+	// leaves
+	Key   []byte // copy of getKey()
+	TKey  []byte // copy of getTransformKey()
+	Value any
+}
+
+type verifLeafFn func(unsafe.Pointer) (k, tk []byte, v any)
+
+func verifClone(b []byte) []byte {
+	c := make([]byte, len(b))
+	copy(c, b)
+	return c
+}
+
+func verifWalk(ref nodeRef, leaf verifLeafFn) *VerifNode {
+	if ref.pointer == nil {
+		return nil
+	}
+	if ref.tag == nodeKindLeaf {
+		k, tk, v := leaf(ref.pointer)
+		return &VerifNode{Leaf: true, Key: verifClone(k), TKey: verifClone(tk), Value: v}
+	}
+
+	hdr := ref.node()
+	out := &VerifNode{
+		ChildrenLen: int(hdr.childrenLen),
+		PrefixLen:   int(hdr.prefixLen),
+		Prefix:      verifClone(hdr.prefix[:]),
+	}
+
+	switch ref.tag {
+	case nodeKind4:
+		n4 := (*node4)(ref.pointer)
+		out.Class = 4
+		out.RawKeys = deconstruct(n4.keys)
+		for i := range n4.children {
+			c := n4.children[i]
+			s := VerifSlot{Index: i, Byte: int(getAtPos(n4.keys, i)), NonNil: c.pointer != nil, Tag: int(c.tag)}
+			if i < int(n4.childrenLen) {
+				s.Live = true
+				s.Child = verifWalk(c, leaf)
+			}
+			out.Slots = append(out.Slots, s)
+		}
+	case nodeKind16:
+		n16 := (*node16)(ref.pointer)
+		out.Class = 16
+		out.RawKeys = verifClone(n16.keys[:])
+		for i := range n16.children {
+			c := n16.children[i]
+			s := VerifSlot{Index: i, Byte: int(n16.keys[i]), NonNil: c.pointer != nil, Tag: int(c.tag)}
+			if i < int(n16.childrenLen) {
+				s.Live = true
+				s.Child = verifWalk(c, leaf)
+			}
+			out.Slots = append(out.Slots, s)
+		}
+	case nodeKind48:
+		n48 := (*node48)(ref.pointer)
+		out.Class = 48
+		out.RawKeys = verifClone(n48.keys[:])
+		byteOf := [maxNode48]int{}
+		for i := range byteOf {
+			byteOf[i] = -1
+		}
+		// ascending byte order, the order the library iterates in
+		for b := 0; b < 256; b++ {
+			if p := n48.keys[b]; p != 0 && int(p) <= len(byteOf) {
+				byteOf[p-1] = b
+			}
+		}
+		for b := 0; b < 256; b++ {
+			p := n48.keys[b]
+			if p == 0 {
+				continue
+			}
+			s := VerifSlot{Index: int(p) - 1, Byte: b, Live: true}
+			if int(p) <= len(n48.children) {
+				c := n48.children[p-1]
+				s.NonNil = c.pointer != nil
+				s.Tag = int(c.tag)
+				s.Child = verifWalk(c, leaf)
+			}
+			out.Slots = append(out.Slots, s)
+		}
+		for i := range n48.children {
+			if byteOf[i] == -1 {
+				c := n48.children[i]
+				out.Slots = append(out.Slots, VerifSlot{Index: i, Byte: -1, NonNil: c.pointer != nil, Tag: int(c.tag)})
+			}
+		}
+	case nodeKind256:
+		n256 := (*node256)(ref.pointer)
+		out.Class = 256
+		for b := 0; b < 256; b++ {
+			c := n256.children[b]
+			if c.pointer == nil {
+				continue
+			}
+			out.Slots = append(out.Slots, VerifSlot{Index: b, Byte: b, NonNil: true, Tag: int(c.tag), Live: true, Child: verifWalk(c, leaf)})
+		}
+	default:
+		out.Class = -int(ref.tag)
+	}
+	return out
+}
+
+func (t *alphaSortedTree[K, V]) VerifDump() *VerifNode {
+	return verifWalk(t.root, func(p unsafe.Pointer) ([]byte, []byte, any) {
+		l := (*alphaLeafNode[V])(p)
+		return l.getKey(), l.getTransformKey(), l.value
+	})
+}
+
+func (t *unsignedSortedTree[K, V]) VerifDump() *VerifNode {
+	return verifWalk(t.root, func(p unsafe.Pointer) ([]byte, []byte, any) {
+		l := (*unsignedLeafNode[V])(p)
+		return l.getKey(), l.getTransformKey(), l.value
+	})
+}
+
+func (t *signedSortedTree[K, V]) VerifDump() *VerifNode {
+	return verifWalk(t.root, func(p unsafe.Pointer) ([]byte, []byte, any) {
+		l := (*signedLeafNode[V])(p)
+		return l.getKey(), l.getTransformKey(), l.value
+	})
+}
+
+func (t *floatSortedTree[K, V]) VerifDump() *VerifNode {
+	return verifWalk(t.root, func(p unsafe.Pointer) ([]byte, []byte, any) {
+		l := (*floatLeafNode[V])(p)
+		return l.getKey(), l.getTransformKey(), l.value
+	})
+}
+
+func (t *compoundSortedTree[K, V]) VerifDump() *VerifNode {
+	return verifWalk(t.root, func(p unsafe.Pointer) ([]byte, []byte, any) {
+		l := (*compoundLeafNode[V])(p)
+		return l.getKey(), l.getTransformKey(), l.value
+	})
+}
+
+func (t *collationSortedTree[K, V]) VerifDump() *VerifNode {
+	return verifWalk(t.root, func(p unsafe.Pointer) ([]byte, []byte, any) {
+		l := (*collateLeafNode[V])(p)
+		return l.getKey(), l.getTransformKey(), l.value
+	})
+}
